@@ -986,6 +986,9 @@ class _Simu(_IObserver, _params.Updatable, ABC):
         mesh = self.__Get_mesh_from_history(self.__listMesh[index])
 
         self.__mesh = mesh
+        # a mesh read back from a file of the history has no observers yet: the simulation must
+        # hear about later modifications of the mesh it works on
+        mesh._Add_observer(self)
 
         # the solution fields are sized by the mesh: a Set_Iter override only restores the ones its
         # iteration holds, the others must not keep the size of the previous mesh
